@@ -9,7 +9,7 @@ def run(ctx):
     env = {"VERIF_BIN": ctx.build_binary()}
     common.replay_layer(ctx, "MC_Walk.tla", "MC_Walk_zones.cfg", "walk-replay", "walkzones", args={"binary_every": 50}, workers=8, heap="2g", env_extra=env)
     common.replay_layer(ctx, "MC_Walk.tla", "MC_Walk_select.cfg", "walk-replay", "walksel", args={"binary_every": 400 if q else 40, "stride": 2 if q else 1}, workers=10, heap="3g", env_extra=env)
-    common.replay_layer(ctx, "MC_Walk.tla", "MC_Walk_positions.cfg", "walk-replay", "walkpos", args={"binary_every": 900 if q else 60, "stride": 5 if q else 1}, workers=10, heap="3g", env_extra=env)
+    common.replay_layer(ctx, "MC_Walk.tla", "MC_Walk_positions.cfg", "walk-replay", "walkpos", args={"binary_every": 900 if q else 60, "stride": 5 if q else 1, "dst": 1}, workers=10, heap="3g", env_extra=env)
     common.replay_layer(ctx, "MC_Walk.tla", "MC_Walk_layouts.cfg", "walk-layouts", "walklay", args={"stride": 3 if q else 1}, workers=10, heap="3g", env_extra=env)
     return vlib.finish(
         ctx, "model_checking",
